@@ -51,6 +51,8 @@ AbsS == [DefS EXCEPT !.p = "absent"]
 AbsM == [DefM EXCEPT !.tid = "absent", !.sid = "absent", !.smp = "missing"]
 AbsJ == [DefJ EXCEPT !.p = "absent"]
 NoCar == [s |-> AbsS, m |-> AbsM, j |-> AbsJ]
+\* no X-B3-* header at all (the case attribute of nothing is immaterial)
+MAbs(m) == m.tid = "absent" /\ m.sid = "absent" /\ m.smp = "missing"
 
 TidAlt == {"ok16", "zero32", "zero16", "otherlen", "long", "nonhex", "empty"}
 SidAlt == {"zero", "short", "long", "nonhex", "empty"}
@@ -79,7 +81,7 @@ ASSUME PrintT(<<"DIMS", ToJson([s |-> [d \in DimS |-> AltS(d) \cup {DefS[d]}],
 
 \* mutated dimensions, counted against the base the carrier started from (absent parts do not count)
 FaultsS(s) == IF s.p = "absent" THEN 0 ELSE Cardinality({d \in DimS : s[d] # DefS[d]})
-FaultsM(m) == IF m = AbsM THEN 0 ELSE Cardinality({d \in DimM : m[d] # DefM[d]})
+FaultsM(m) == IF MAbs(m) THEN 0 ELSE Cardinality({d \in DimM : m[d] # DefM[d]})
 FaultsJ(j) == Cardinality({d \in DimJ : j[d] # DefJ[d]})
 Faults(f, c) == IF f = "jg" THEN FaultsJ(c.j) ELSE FaultsS(c.s) + FaultsM(c.m)
 
@@ -99,9 +101,10 @@ WFJ(j) == /\ j.p = "present" /\ j.st = "ok" /\ j.cs = "lower"
 \* a documented form except that an id is all zeros: there is no non-zero id to install
 ZeroTid == {"zero32", "zero16"}
 ZeroIds(t, s) == (t \in ZeroTid /\ s \in {"ok", "zero"}) \/ (t \in OkTid /\ s = "zero")
-ZS(s) == ZeroIds(s.tid, s.sid) /\ WFS([s EXCEPT !.tid = "ok32", !.sid = "ok"])
-ZM(m) == ZeroIds(m.tid, m.sid) /\ WFM([m EXCEPT !.tid = "ok32", !.sid = "ok"])
-ZJ(j) == ZeroIds(j.tid, j.sid) /\ WFJ([j EXCEPT !.tid = "ok32", !.sid = "ok"])
+\* (whatever the hex-digit case of the other fields)
+ZS(s) == ZeroIds(s.tid, s.sid) /\ WFS([s EXCEPT !.tid = "ok32", !.sid = "ok", !.cs = "lower"])
+ZM(m) == ZeroIds(m.tid, m.sid) /\ WFM([m EXCEPT !.tid = "ok32", !.sid = "ok", !.cs = "lower"])
+ZJ(j) == ZeroIds(j.tid, j.sid) /\ WFJ([j EXCEPT !.tid = "ok32", !.sid = "ok", !.cs = "lower"])
 
 Acc(src, t, smp) == [o |-> "accept", src |-> src, pad |-> (t = "ok16"), sampled |-> smp]
 Rej    == [o |-> "reject", src |-> "", pad |-> FALSE, sampled |-> FALSE]
@@ -111,9 +114,9 @@ OutcomeB3(c, D) ==
   IF c.s.p = "present"
     THEN \* the single header takes precedence over the multi headers
          IF WFS(c.s) THEN Acc("s", c.s.tid, c.s.smp \in {"1", "d"})
-         ELSE IF ZS(c.s) /\ c.m = AbsM THEN Rej
+         ELSE IF ZS(c.s) /\ MAbs(c.m) THEN Rej
          ELSE Either
-    ELSE IF c.m = AbsM THEN Rej
+    ELSE IF MAbs(c.m) THEN Rej
          ELSE IF WFM(c.m) THEN Acc("m", c.m.tid, c.m.smp = "1")
          ELSE IF ZM(c.m) THEN Rej
          \* as implemented: any other X-B3-Sampled text counts as "not sampled"
@@ -156,15 +159,17 @@ ExtractRT == /\ phase = "injected" /\ phase' = "done"
              /\ res' = Outcome(XFmt(fmt), car, devUsed)
              /\ UNCHANGED <<fmt, sc, car, devUsed>>
 
-MutS(d) == /\ phase = "carrier" /\ fmt = "b3" /\ car.s.p = "present"
+\* the bound on mutated dimensions (stated once more, with the canonical-form rule, as CONSTRAINT Budget)
+Room == Faults(fmt, car) < MaxFaults
+MutS(d) == /\ phase = "carrier" /\ Room /\ fmt = "b3" /\ car.s.p = "present"
            /\ car.s[d] = DefS[d]
            /\ \E v \in AltS(d) : car' = [car EXCEPT !.s[d] = v]
            /\ UNCHANGED <<phase, fmt, sc, res, devUsed>>
-MutM(d) == /\ phase = "carrier" /\ fmt = "b3" /\ car.m # AbsM
+MutM(d) == /\ phase = "carrier" /\ Room /\ fmt = "b3" /\ ~MAbs(car.m)
            /\ car.m[d] = DefM[d]
            /\ \E v \in AltM(d) : car' = [car EXCEPT !.m[d] = v]
            /\ UNCHANGED <<phase, fmt, sc, res, devUsed>>
-MutJ(d) == /\ phase = "carrier" /\ fmt = "jg"
+MutJ(d) == /\ phase = "carrier" /\ Room /\ fmt = "jg"
            /\ car.j[d] = DefJ[d]
            /\ \E v \in AltJ(d) : car' = [car EXCEPT !.j[d] = v]
            /\ UNCHANGED <<phase, fmt, sc, res, devUsed>>
@@ -181,7 +186,10 @@ Spec == Init /\ [][Next]_vars
 \* every header is the absent carrier
 Canon == /\ (car.s.smp \in {"missing"} => car.s.par = "none")
          /\ (car.s.st \in {"onefield", "deny"} => car.s.par = "none")
-Budget == phase = "carrier" => Faults(fmt, car) <= MaxFaults /\ Canon
+         \* an empty b3 value is an absent header, not a malformed one
+         /\ ~(car.s.st = "onefield" /\ car.s.tid = "empty")
+InBudget == phase = "carrier" => Faults(fmt, car) <= MaxFaults /\ Canon
+Budget == InBudget      \* (the CONSTRAINT; TLC -coverage cannot evaluate a constraint operator inside an invariant)
 
 (* ---------------- the property (C16) -------------------------------------- *)
 Ideal == devUsed = {}
@@ -204,11 +212,116 @@ MissingNotSampled ==
   /\ (Done /\ fmt # "jg" /\ WFS(car.s) /\ car.s.smp = "missing") => res.o = "accept" /\ ~res.sampled
   /\ (Done /\ fmt # "jg" /\ car.s.p = "absent" /\ WFM(car.m) /\ car.m.smp = "missing") => res.o = "accept" /\ ~res.sampled
 SinglePrecedence == (Done /\ fmt # "jg" /\ WFS(car.s)) => res.o = "accept" /\ res.src = "s"
-NothingFromNothing == (Done /\ car = NoCar) => res.o = "reject"
-ZeroNeverInstalled == (Done /\ fmt = "jg" /\ car.j.tid \in ZeroTid /\ car.j.sid \in {"ok", "zero"} /\ WFJ([car.j EXCEPT !.tid = "ok32", !.sid = "ok"]))
+NothingFromNothing == (Done /\ car.s.p = "absent" /\ MAbs(car.m) /\ car.j.p = "absent") => res.o = "reject"
+ZeroNeverInstalled == (Done /\ fmt = "jg" /\ car.j.tid \in ZeroTid /\ car.j.sid \in {"ok", "zero"} /\ WFJ([car.j EXCEPT !.tid = "ok32", !.sid = "ok", !.cs = "lower"]))
                           => res.o = "reject"
 TypeOK == /\ res.o \in {"accept", "either", "reject"} /\ devUsed \subseteq Dev
           /\ phase \in {"ctx", "injected", "done", "carrier", "xdone"}
+
+(* ---------------- the documented forms again, on token sequences ------------ *)
+\* one token per byte: 0..15 hex digit (letters lower-case), 26..31 upper-case letter A..F (value + 16),
+\* 40 '-', 41 space/tab, 43 any other byte, 44 ':'
+Dash == 40
+Ows == 41
+Oth == 43
+Colon == 44
+RECURSIVE SplitAt(_, _, _)
+\* fields of s between separators sep; cur = the field being collected
+SplitAt(s, sep, cur) == IF s = <<>> THEN <<cur>>
+                        ELSE IF s[1] = sep THEN <<cur>> \o SplitAt(Tail(s), sep, <<>>)
+                        ELSE SplitAt(Tail(s), sep, Append(cur, s[1]))
+Split(s, sep) == SplitAt(s, sep, <<>>)
+LowerHex(f) == \A i \in 1..Len(f) : f[i] \in 0..15
+AnyHex(f)   == \A i \in 1..Len(f) : f[i] \in 0..15 \/ f[i] \in 26..31
+IsZero(f)   == \A i \in 1..Len(f) : f[i] = 0
+HexN(f, n)  == Len(f) = n /\ AnyHex(f)
+TidForm(f)  == HexN(f, 32) \/ HexN(f, 16)
+Pad32(f)    == IF Len(f) = 16 THEN [i \in 1..16 |-> 0] \o f ELSE f
+TAcc(src, t, s, smp) == [o |-> "accept", src |-> src, pad |-> (Len(t) = 16), sampled |-> smp, tid |-> Pad32(t), sid |-> s]
+TRej    == [o |-> "reject", src |-> "", pad |-> FALSE, sampled |-> FALSE, tid |-> <<>>, sid |-> <<>>]
+TEither == [o |-> "either", src |-> "", pad |-> FALSE, sampled |-> FALSE, tid |-> <<>>, sid |-> <<>>]
+\* the shapes, up to hex-digit case.  b3: tid-sid | tid-sid-S | tid-sid-S-parent
+SingleShape(F) == /\ Len(F) \in 2..4 /\ TidForm(F[1]) /\ HexN(F[2], 16)
+                  /\ Len(F) >= 3 => F[3] \in {<<1>>, <<0>>, <<13>>}
+                  /\ Len(F) = 4 => HexN(F[4], 16)
+AllLower(F) == \A k \in 1..Len(F) : LowerHex(F[k])
+\* c = [b3, mt, ms, mf : [p : BOOLEAN, v : tokens]]   (p: the header is present and non-empty)
+MultiShape(c) == /\ c.mt.p /\ c.ms.p /\ TidForm(c.mt.v) /\ HexN(c.ms.v, 16)
+                 /\ c.mf.p => c.mf.v \in {<<1>>, <<0>>}
+MultiAbsent(c) == ~c.mt.p /\ ~c.ms.p /\ ~c.mf.p
+\* a shape with an all-zero id denotes no context at all; a documented (lower-case) one denotes exactly
+\* its ids; the same shape in another hex-digit case is left open
+TokOutcomeB3(c) ==
+  IF c.b3.p
+    THEN LET F == Split(c.b3.v, Dash) IN
+         IF ~SingleShape(F) THEN TEither
+         ELSE IF IsZero(F[1]) \/ IsZero(F[2]) THEN (IF MultiAbsent(c) THEN TRej ELSE TEither)
+         ELSE IF AllLower(F) THEN TAcc("s", F[1], F[2], Len(F) >= 3 /\ F[3] \in {<<1>>, <<13>>})
+         ELSE TEither
+    ELSE IF MultiAbsent(c) THEN TRej
+         ELSE IF ~MultiShape(c) THEN TEither
+         ELSE IF IsZero(c.mt.v) \/ IsZero(c.ms.v) THEN TRej
+         ELSE IF LowerHex(c.mt.v) /\ LowerHex(c.ms.v) THEN TAcc("m", c.mt.v, c.ms.v, c.mf.p /\ c.mf.v = <<1>>)
+         ELSE TEither
+\* uber-trace-id: tid:sid:parent:flags, parent 0 or 16 hex, flags 00 / 01
+JaegerShape(F) == /\ Len(F) = 4 /\ TidForm(F[1]) /\ HexN(F[2], 16)
+                  /\ (F[3] = <<0>> \/ HexN(F[3], 16)) /\ F[4] \in {<<0, 0>>, <<0, 1>>}
+TokOutcomeJ(h) ==
+  IF ~h.p THEN TRej
+  ELSE LET F == Split(h.v, Colon) IN
+       IF ~JaegerShape(F) THEN TEither
+       ELSE IF IsZero(F[1]) \/ IsZero(F[2]) THEN TRej
+       ELSE IF AllLower(F) THEN TAcc("j", F[1], F[2], F[4] = <<0, 1>>)
+       ELSE TEither
+
+\* a representative rendering of an abstract carrier as tokens
+Up(t, up) == IF up /\ t \in 10..15 THEN t + 16 ELSE t
+Field(n, a, b, up) == [i \in 1..n |-> IF i = 2 THEN Up(a, up) ELSE IF i = n THEN b ELSE 0]
+TidR(cls, up) == CASE cls = "ok32" -> Field(32, 10, 7, up) [] cls = "ok16" -> Field(16, 10, 7, up)
+                   [] cls = "zero32" -> Field(32, 0, 0, up) [] cls = "zero16" -> Field(16, 0, 0, up)
+                   [] cls = "otherlen" -> Field(15, 3, 3, up) [] cls = "long" -> Field(33, 3, 3, up)
+                   [] cls = "nonhex" -> Field(32, Oth, 3, up) [] cls \in {"empty", "absent"} -> <<>>
+SidR(cls, up) == CASE cls = "ok" -> Field(16, 11, 5, up) [] cls = "zero" -> Field(16, 0, 0, up)
+                   [] cls = "short" -> Field(15, 3, 3, up) [] cls = "long" -> Field(17, 3, 3, up)
+                   [] cls = "nonhex" -> Field(16, Oth, 3, up) [] cls \in {"empty", "absent"} -> <<>>
+SmpR(x) == CASE x = "1" -> <<1>> [] x = "0" -> <<0>> [] x = "d" -> <<13>> [] x = "other" -> <<2>>
+             [] x \in {"emptyfield", "missing"} -> <<>>
+Hdr(present, v) == [p |-> present /\ v # <<>>, v |-> v]
+RenderS(s) ==
+  LET up == s.cs = "upper"
+      t == TidR(s.tid, s.cs # "lower")
+      d == SidR(s.sid, up)
+      rest == IF s.smp = "missing" THEN <<>>
+              ELSE <<Dash>> \o SmpR(s.smp) \o (CASE s.par = "none" -> <<>>
+                                                  [] s.par = "p16" -> <<Dash>> \o Field(16, 12, 3, up)
+                                                  [] s.par = "junk" -> <<Dash, Oth>>)
+  IN CASE s.st = "ok"       -> t \o <<Dash>> \o d \o rest
+       [] s.st = "sepdup"   -> t \o <<Dash, Dash>> \o d \o rest
+       [] s.st = "ws"       -> <<Ows>> \o t \o <<Dash>> \o d \o rest
+       [] s.st = "onefield" -> t
+       [] s.st = "deny"     -> <<0>>
+RenderB3(c) == [b3 |-> Hdr(c.s.p = "present", RenderS(c.s)),
+                mt |-> Hdr(c.m.tid # "absent", TidR(c.m.tid, c.m.cs # "lower")),
+                ms |-> Hdr(c.m.sid # "absent", SidR(c.m.sid, c.m.cs = "upper")),
+                mf |-> Hdr(c.m.smp # "missing", SmpR(c.m.smp))]
+RenderJ(j) ==
+  LET up == j.cs = "upper"
+      t == TidR(j.tid, j.cs # "lower")
+      d == SidR(j.sid, up)
+      p == CASE j.par = "0" -> <<0>> [] j.par = "p16" -> Field(16, 12, 3, up) [] j.par = "empty" -> <<>> [] j.par = "nonhex" -> <<Oth>>
+      f == CASE j.fl = "hex2" -> <<Up(j.fb \div 16, up), Up(j.fb % 16, up)>> [] j.fl = "hex1" -> <<1>> [] j.fl = "empty" -> <<>>
+             [] j.fl = "nonhex" -> <<Oth>> [] j.fl = "long" -> <<0, 0, 1>>
+      c == IF j.st = "urlenc" THEN <<Oth, 3, 26>> ELSE <<Colon>>
+      core == IF j.st = "f3" THEN t \o c \o d \o c \o f ELSE t \o c \o d \o c \o p \o c \o f
+  IN Hdr(j.p = "present",
+         CASE j.st = "f5" -> core \o <<Colon, 1>> [] j.st = "ws" -> <<Ows>> \o core [] OTHER -> core)
+\* both formulations agree on every member of the partition
+\* (TLC also evaluates invariants on the successors that CONSTRAINT Budget discards: skip those)
+Agree == (phase \in {"carrier", "injected"} /\ InBudget) =>
+           LET f == XFmt(fmt)
+               a == Outcome(f, car, {})
+               b == IF f = "jg" THEN TokOutcomeJ(RenderJ(car.j)) ELSE TokOutcomeB3(RenderB3(car))
+           IN a.o = b.o /\ a.src = b.src /\ a.pad = b.pad /\ a.sampled = b.sampled
 
 (* ---------------- behaviour export ----------------------------------------- *)
 EmitAll ==
